@@ -56,3 +56,10 @@ def fill(check, na):
           "phase scripts that drive the controller through over-use, decrease, near-max additive increase and throughput collapse.",
           "Bounds are evaluated once a measurement exists (before that the controller uses its 30 Mbit/s default); > 255 SSRCs is a listed known finding.",
           "DESIGN.md 3/C15")
+    check("C18", "reference-model monitor: the real StreamStatistics is compared after every packet and at every report point with an RFC 3550 A.1/A.3/A.8 model in Python integers; the real RTCRtpReceiver._run_rtcp is driven in virtual time and every RR on the wire is compared with the model",
+          "Held on the arrival histories generated: counters, cumulative loss, extended highest sequence number and jitter agree "
+          "with the model after every add(); fraction lost at every report; every report serialises and parses back; the RTCP "
+          "task survives. Histories are sampled (loss, duplication, reordering, sequence cycles, timestamp wrap, hostile "
+          "timestamps, clock jumps).",
+          "Arrival clock = scripted replacement of time.time() in the receiver module; clock jumps <= 4 h; report path behind a stub transport (no DTLS).",
+          "DESIGN.md 3/C18")
